@@ -445,6 +445,8 @@ func (e *Engine) vcall(fn *ssa.Function, s *St, in *ssa.Call, ip int, short stri
 			}
 		} else if r != "unsat" {
 			ob.Unknown++
+		} else if ob.Verdict == "" {
+			ob.Verdict = "unsat"
 		}
 		return set(UnitV{})
 	case "vAssert", "vKnown":
